@@ -32,6 +32,9 @@ pub struct ReqSpec {
     pub body: Body,
     pub trailers: Option<Vec<Field>>,
     pub split: bool,
+    /// the client splits its stream only after this many recv_data calls on the whole stream (0 = not at all
+    /// when `split` is false; when `split` is true the stream is split before anything is sent)
+    pub late_split: usize,
     // expected at the server
     pub exp_scheme: Option<String>,
     pub exp_authority: String,
@@ -44,6 +47,8 @@ pub struct RespSpec {
     pub body: Body,
     pub trailers: Option<Vec<Field>>,
     pub split: bool,
+    /// when `split`: number of recv_data calls made on the whole stream before it is split
+    pub split_after: usize,
     /// respond before the request body has been read completely (only when split)
     pub early: bool,
 }
@@ -156,6 +161,7 @@ pub fn gen_exchange(i: usize, allow_empty_pieces: bool) -> Exchange {
         body,
         trailers: if chance(1, 3) { Some(gen_fields(3, false)) } else { None },
         split: chance(1, 3),
+        late_split: if chance(1, 4) { 1 + draw_usize(3) } else { 0 },
         exp_scheme,
         exp_authority: host.to_string(),
         exp_path_query: exp_path,
@@ -167,6 +173,7 @@ pub fn gen_exchange(i: usize, allow_empty_pieces: bool) -> Exchange {
         body: gen_body(allow_empty_pieces),
         trailers: if chance(1, 3) { Some(gen_fields(3, false)) } else { None },
         split,
+        split_after: if split && chance(1, 2) { 1 + draw_usize(3) } else { 0 },
         early: split && chance(1, 2),
     };
     Exchange { req, resp }
@@ -235,6 +242,55 @@ macro_rules! send_body {
     }};
 }
 
+/// up to `$max` recv_data calls; evaluates to 0 (body not finished), 1 (clean end seen), 2 (failed)
+macro_rules! recv_some {
+    ($rec:expr, $who:expr, $s:expr, $got:expr, $max:expr) => {{
+        let mut state = 0u8;
+        for _ in 0..$max {
+            match $s.recv_data().await {
+                Ok(Some(d)) => {
+                    let v = read_all(d);
+                    $got.chunks += 1;
+                    $got.body.extend(v);
+                }
+                Ok(None) => {
+                    $got.clean_ends += 1;
+                    state = 1;
+                    break;
+                }
+                Err(e) => {
+                    $rec.borrow_mut().errors.push((format!("{}.recv_data", $who), e.to_string()));
+                    state = 2;
+                    break;
+                }
+            }
+        }
+        state
+    }};
+}
+macro_rules! recv_trailers_only {
+    ($rec:expr, $who:expr, $s:expr, $got:expr) => {{
+        match $s.recv_trailers().await {
+            Ok(t) => {
+                $got.trailers = t.map(|m| fields_of(&m));
+                $got.trailers_done = true;
+            }
+            Err(e) => {
+                $rec.borrow_mut().errors.push((format!("{}.recv_trailers", $who), e.to_string()));
+            }
+        }
+    }};
+}
+/// the rest of a message after `recv_some!` evaluated to `$state`
+macro_rules! recv_after {
+    ($rec:expr, $who:expr, $s:expr, $got:expr, $state:expr) => {{
+        match $state {
+            0 => recv_rest!($rec, $who, $s, $got),
+            1 => recv_trailers_only!($rec, $who, $s, $got),
+            _ => {}
+        }
+    }};
+}
 macro_rules! recv_rest {
     ($rec:expr, $who:expr, $s:expr, $got:expr) => {{
         let mut ok = true;
@@ -403,6 +459,11 @@ pub fn spawn_server(ex: &mut Exec, net: &Shared, rec: &Rc<RefCell<Rec>>, setup: 
                             r
                         };
                         if spec.split {
+                            // a stream may be split at any time, also in the middle of the body
+                            let pre = recv_some!(rec, "server", s, got, spec.split_after);
+                            if spec.split_after > 0 {
+                                obs::count("probe.split_after_reading_part_of_the_body");
+                            }
                             let (mut tx, mut rx) = s.split();
                             let rec2 = rec.clone();
                             let (gate_tx, gate_rx) = (Rc::new(RefCell::new(spec.early)), Rc::new(RefCell::new(None::<std::task::Waker>)));
@@ -421,7 +482,7 @@ pub fn spawn_server(ex: &mut Exec, net: &Shared, rec: &Rc<RefCell<Rec>>, setup: 
                                 tryrec!(rec2, "server.send_response", tx.send_response(resp).await);
                                 let _ = send_body!(rec2, "server", tx, spec.body, spec.trailers);
                             });
-                            recv_rest!(rec, "server", rx, got);
+                            recv_after!(rec, "server", rx, got, pre);
                             rec.borrow_mut().got_req[idx] = Some(got);
                             *gate_tx.borrow_mut() = true;
                             let w = gate_rx.borrow_mut().take();
@@ -531,7 +592,15 @@ pub fn spawn_client(ex: &mut Exec, net: &Shared, rec: &Rc<RefCell<Rec>>, setup: 
                     let resp = tryrec!(rec, "client.recv_response", s.recv_response().await);
                     got.start = resp.status().as_u16().to_string();
                     got.headers = fields_of(resp.headers());
-                    recv_rest!(rec, "client", s, got);
+                    if spec.late_split > 0 {
+                        let pre = recv_some!(rec, "client", s, got, spec.late_split);
+                        obs::count("probe.split_after_reading_part_of_the_body");
+                        let (tx, mut rx) = s.split();
+                        recv_after!(rec, "client", rx, got, pre);
+                        drop(tx);
+                    } else {
+                        recv_rest!(rec, "client", s, got);
+                    }
                 }
                 rec.borrow_mut().got_resp[i] = Some(got);
                 *remaining.borrow_mut() -= 1;
